@@ -226,14 +226,36 @@ Section Compile.
   Proof. intros g H1 H2. apply directb_compile; [apply Nat.ltb_lt; auto | apply negb_true_iff; auto]. Qed.
 
   (* ---- closed marks *)
+  Lemma dok_intro : forall s, calls_in (is_directb P) s = true -> has_yield s = false -> direct_okb P s = true.
+  Proof. intros s H1 H2. unfold direct_okb. rewrite H1, H2. auto. Qed.
+
+  Lemma dok_elim : forall s, direct_okb P s = true -> calls_in (is_directb P) s = true /\ has_yield s = false.
+  Proof. intros s H. unfold direct_okb in H. apply andb_true_iff in H as [H1 H2]. apply negb_true_iff in H2. auto. Qed.
+
+  Lemma dok_seq : forall a b, direct_okb P a = true -> direct_okb P b = true -> direct_okb P (SSeq a b) = true.
+  Proof. intros a b Ha Hb. apply dok_elim in Ha as [A1 A2]. apply dok_elim in Hb as [B1 B2]. apply dok_intro; simpl; rewrite ?A1, ?B1, ?A2, ?B2; auto. Qed.
+
+  Lemma dok_if : forall m c a, direct_okb P a = true -> direct_okb P (SIf m c a) = true.
+  Proof. intros m c a Ha. apply dok_elim in Ha as [A1 A2]. apply dok_intro; simpl; auto. Qed.
+
+  Lemma dok_ifelse : forall m c a b, direct_okb P a = true -> direct_okb P b = true -> direct_okb P (SIfElse m c a b) = true.
+  Proof. intros m c a b Ha Hb. apply dok_elim in Ha as [A1 A2]. apply dok_elim in Hb as [B1 B2]. apply dok_intro; simpl; rewrite ?A1, ?B1, ?A2, ?B2; auto. Qed.
+
+  Lemma dok_for : forall m l i c po bo, direct_okb P i = true -> direct_okb P po = true -> direct_okb P bo = true ->
+    direct_okb P (SFor m l i c po bo) = true.
+  Proof.
+    intros m l i c po bo Hi Hp Hb. apply dok_elim in Hi as [A1 A2]. apply dok_elim in Hp as [B1 B2]. apply dok_elim in Hb as [C1 C2].
+    apply dok_intro; simpl; rewrite ?A1, ?B1, ?C1, ?A2, ?B2, ?C2; auto.
+  Qed.
+
   Definition post_shape_ok (po : stmt) : Prop :=
     match po with
     | SSkip | SYield | SCall true _ _ _ => True
-    | other => calls_in (is_directb P) other = true /\ esc_conts [] other = []
+    | other => direct_okb P other = true /\ esc_conts [] other = []
     end.
 
   Definition flow_rel (fl : flow) (a : option label * bool) : Prop :=
-    fl_lbl fl = fst a /\ (snd a = false -> calls_in (is_directb P) (fl_post fl) = true) /\ post_shape_ok (fl_post fl).
+    fl_lbl fl = fst a /\ (snd a = false -> direct_okb P (fl_post fl) = true) /\ post_shape_ok (fl_post fl).
 
   Definition ctx_rel (ctx : list flow) (actx : actx) : Prop := Forall2 flow_rel ctx actx.
 
@@ -274,22 +296,28 @@ Section Compile.
   Proof. intros. unfold post_okb. simpl. rewrite H. auto. Qed.
 
   Definition simple_shape (po' : stmt) (bp : bool) : Prop :=
-    (bp = false -> calls_in (is_directb P) po' = true) /\ post_shape_ok po'.
+    (bp = false -> direct_okb P po' = true) /\ post_shape_ok po'.
 
   (* what [annot] guarantees about a statement and about its translation, given that the flow data of the
      enclosing flattened loops agrees with what the analysis assumed about them *)
   Definition stmt_ok (ctx : list flow) (s' : stmt) (b : bool) : Prop :=
     (forall cc, forallb (instr_okb P) (fst (flatten s' ctx cc)) = true) /\
-    (b = false -> calls_in (is_directb P) s' = true /\
+    (b = false -> direct_okb P s' = true /\
                   forall inner, forallb (post_okb P ctx) (esc_conts inner s') = true).
+
+  Lemma istruct_ok : forall ctx s, direct_okb P s = true -> (forall inner, forallb (post_okb P ctx) (esc_conts inner s) = true) ->
+    forallb (instr_okb P) [IStruct ctx s] = true.
+  Proof. intros ctx s H1 H2. simpl. rewrite H1, H2. auto. Qed.
 
   Lemma simple_annot_shape : forall po actx, simple_stmt po = true -> calls_in ltb_sp po = true ->
     simple_shape (fst (annot bl actx po)) (snd (annot bl actx po)).
   Proof.
-    intros po actx Hs Hc. destruct po; simpl in *; try discriminate; unfold simple_shape; simpl; auto.
-    destruct (flag bl f) eqn:Ef; simpl; [split; [discriminate|auto]|].
-    assert (is_directb P f = true) by (apply directb_of; auto; rewrite Ef; auto).
-    split; auto.
+    intros po actx Hs Hc. destruct po; simpl in *; try discriminate; unfold simple_shape; simpl;
+      try (split; [intros; try discriminate; reflexivity | simpl; auto]; fail).
+    - destruct (flag bl f) eqn:Ef; simpl; [split; [discriminate|auto]|].
+      assert (is_directb P f = true) by (apply directb_of; auto; rewrite Ef; auto).
+      assert (direct_okb P (SCall false dst f args) = true) by (apply dok_intro; auto).
+      split; auto.
   Qed.
 
   Lemma annot_ok : forall s actx ctx, ctx_rel ctx actx ->
@@ -306,7 +334,8 @@ Section Compile.
     - (* SCall *)
       destruct (flag bl f) eqn:Ef; simpl; [split; [auto | discriminate]|].
       assert (is_directb P f = true) by (apply directb_of; auto; rewrite Ef; auto).
-      split; [intros; simpl; rewrite H; auto | intros _; split; auto].
+      assert (Hd : direct_okb P (SCall false dst f args) = true) by (apply dok_intro; auto).
+      split; [intros; rewrite Hd; auto | intros _; split; auto].
     - (* SSeq *)
       pose proof (IHs1 actx ctx Hrel H1 H) as [A1 A2]. pose proof (IHs2 actx ctx Hrel H2 H0) as [B1 B2].
       destruct (annot bl actx s1) as [a' ba], (annot bl actx s2) as [b' bb]. simpl in *. split.
@@ -314,7 +343,7 @@ Section Compile.
         specialize (B1 c1). destruct (flatten b' ctx c1) as [ib c2] eqn:Eb. simpl in *.
         rewrite forallb_app, A1, B1. auto.
       + intros Hb. apply orb_false_iff in Hb as [-> ->].
-        destruct (A2 eq_refl) as [A3 A4]. destruct (B2 eq_refl) as [B3 B4]. rewrite A3, B3. split; auto.
+        destruct (A2 eq_refl) as [A3 A4]. destruct (B2 eq_refl) as [B3 B4]. split; [apply dok_seq; auto|].
         intros inner. rewrite forallb_app, A4, B4. auto.
     - (* SIf *)
       pose proof (IHs actx ctx Hrel Hc Hp) as [A1 A2].
@@ -322,8 +351,8 @@ Section Compile.
       + intros cc. destruct ba; simpl.
         * specialize (A1 (cc + 2)). destruct (flatten a' ctx (cc + 2)) as [ia c1]. simpl in *.
           rewrite forallb_app, A1. auto.
-        * destruct (A2 eq_refl) as [A3 A4]. rewrite A3, A4. auto.
-      + intros ->. apply A2; auto.
+        * destruct (A2 eq_refl) as [A3 A4]. rewrite (dok_if false c a' A3). simpl. rewrite A4. auto.
+      + intros ->. destruct (A2 eq_refl) as [A3 A4]. split; [apply dok_if; auto | auto].
     - (* SIfElse *)
       pose proof (IHs1 actx ctx Hrel H1 H) as [A1 A2]. pose proof (IHs2 actx ctx Hrel H2 H0) as [B1 B2].
       destruct (annot bl actx s1) as [a' ba], (annot bl actx s2) as [b' bb]. simpl in *. split.
@@ -333,9 +362,9 @@ Section Compile.
           rewrite !forallb_app, A1. simpl. rewrite forallb_app, B1. destruct (ends_with_return a'); auto.
         * apply orb_false_iff in Eb as [-> ->].
           destruct (A2 eq_refl) as [A3 A4]. destruct (B2 eq_refl) as [B3 B4].
-          rewrite A3, B3, forallb_app, A4, B4. auto.
+          rewrite (dok_ifelse false c a' b' A3 B3). simpl. rewrite forallb_app, A4, B4. auto.
       + intros Hb. apply orb_false_iff in Hb as [-> ->].
-        destruct (A2 eq_refl) as [A3 A4]. destruct (B2 eq_refl) as [B3 B4]. rewrite A3, B3. split; auto.
+        destruct (A2 eq_refl) as [A3 A4]. destruct (B2 eq_refl) as [B3 B4]. split; [apply dok_ifelse; auto|].
         intros inner. rewrite forallb_app, A4, B4. auto.
     - (* SFor *)
       rename H2 into Hci, H4 into Hcp, H3 into Hcb, H0 into Hpb, H into Hpi, H1 into Hsimple.
@@ -364,7 +393,7 @@ Section Compile.
           apply orb_false_iff in Em as [Em ->]. apply orb_false_iff in Em as [-> ->].
           pose proof (IHs3 _ _ (Hrel' 0 0) Hcb Hpb) as [_ B2]. rewrite Eb in B2. simpl in B2.
           destruct (I2 eq_refl) as [I3 I4]. destruct (Po2 eq_refl) as [P3 P4]. destruct (B2 eq_refl) as [B3 B4].
-          rewrite I3, P3, B3. simpl. rewrite !forallb_app, I4, P4. simpl. rewrite andb_true_r.
+          rewrite (dok_for false lbl i' c po' bo' I3 P3 B3). simpl. rewrite !forallb_app, I4, P4. simpl. rewrite andb_true_r.
           apply forallb_forall. intros l Hl.
           specialize (B4 [lbl]). rewrite forallb_forall in B4. specialize (B4 l Hl).
           rewrite post_okb_skip in B4; auto. simpl. eapply esc_conts_not_inner; eauto. simpl; auto.
@@ -372,7 +401,7 @@ Section Compile.
         intros Em. apply orb_false_iff in Em as [Em ->]. apply orb_false_iff in Em as [-> ->].
         pose proof (IHs3 _ _ (Hrel' 0 0) Hcb Hpb) as [_ B2]. rewrite Eb in B2. simpl in B2.
         destruct (I2 eq_refl) as [I3 I4]. destruct (Po2 eq_refl) as [P3 P4]. destruct (B2 eq_refl) as [B3 B4].
-        rewrite I3, P3, B3. split; auto.
+        split; [apply dok_for; auto|].
         intros inner. rewrite !forallb_app, I4, P4. simpl.
         apply forallb_forall. intros l Hl.
         specialize (B4 (lbl :: inner)). rewrite forallb_forall in B4. specialize (B4 l Hl).
@@ -389,6 +418,27 @@ Section Compile.
       + intros Hf. split; auto. intros inner. destruct (existsb (targets l) inner); simpl; auto.
         rewrite (find_rel _ _ _ Hrel Hf). auto.
     - (* SReturn *) split; auto.
+  Qed.
+
+  Lemma has_yield_annot : forall s ctx, has_yield (fst (annot bl ctx s)) = has_yield s.
+  Proof.
+    induction s; intros ctx; simpl; auto.
+    - specialize (IHs1 ctx); specialize (IHs2 ctx).
+      destruct (annot bl ctx s1), (annot bl ctx s2). simpl in *. congruence.
+    - specialize (IHs ctx). destruct (annot bl ctx s). simpl in *. auto.
+    - specialize (IHs1 ctx); specialize (IHs2 ctx).
+      destruct (annot bl ctx s1), (annot bl ctx s2). simpl in *. congruence.
+    - specialize (IHs1 ctx); specialize (IHs2 ctx).
+      destruct (annot bl ctx s1) as [i' bi], (annot bl ctx s2) as [po' bp].
+      specialize (IHs3 ((lbl, bp) :: ctx)). destruct (annot bl ((lbl, bp) :: ctx) s3). simpl in *. congruence.
+  Qed.
+
+  Lemma nonblocking_no_yield : forall f fn, nth_error sp f = Some fn -> flag bl f = false -> has_yield (sf_body fn) = false.
+  Proof.
+    intros f fn H Hb. destruct (has_yield (sf_body fn)) eqn:E; auto.
+    assert (flag bl f = true); [|congruence].
+    unfold bl, blocking_flags, propagate. eapply ble_flag; [apply iterate_ble|].
+    apply init_flag_direct. eexists. split; [unfold graph_of; rewrite nth_error_map, H; reflexivity | simpl; auto].
   Qed.
 
   Theorem compile_wf : wf_prog (compile sp).
@@ -410,8 +460,9 @@ Section Compile.
       assert (L : labels (code ++ (if ends_with_return (fst (annot bl [] (sf_body fn))) then [] else [IRet (EConst 0)])) = labels code).
       { rewrite labels_app. destruct (ends_with_return _); simpl; rewrite app_nil_r; auto. }
       rewrite L. rewrite NoDup_nodupb; auto. destruct (ends_with_return _); auto.
-    - (* direct form: every callee is non-blocking and exists *)
-      simpl. rewrite calls_in_annot. rewrite calls_in_callees. apply forallb_forall. intros g Hg.
+    - (* direct form: every callee is non-blocking and exists, and there is no receive *)
+      simpl. apply dok_intro; [|rewrite has_yield_annot; eapply nonblocking_no_yield; eauto].
+      rewrite calls_in_annot. rewrite calls_in_callees. apply forallb_forall. intros g Hg.
       pose proof (callees_nonblocking f fn Ef Eb) as Hn'. rewrite forallb_forall in Hn'.
       rewrite calls_in_callees in Hc. rewrite forallb_forall in Hc.
       apply directb_of; auto. unfold ltb_sp. auto.
